@@ -761,4 +761,78 @@ Proof.
   split; [|exact H2]. intros id w Hw. apply (H1 id w Hw). rewrite (solve_sat_born_empty _ _ _ _ _ _ H Es). intros [].
 Qed.
 
+(* ---------- soft requirements: the invariant holds on every run ---------- *)
+
+Definition run_gi (r : run_res A) : Prop := match r with ROk st _ => G st | _ => True end.
+
+Lemma g_soft_loop fuel efuel : forall softs st,
+  G st -> run_gi (soft_loop U P a_ge a_conflict fuel efuel st softs).
+Proof.
+  induction softs as [|s t IH]; intros st HG; cbn [soft_loop]; [exact HG|].
+  destruct (pvalue (s_ps st) (VSol s)); [apply IH; exact HG|].
+  destruct HG as [HS [HL [Hr HR]]].
+  match goal with |- context [absorb ?X ?E] =>
+    assert (H0 : SInv U P A X) by (apply (sinv_eq U P A st); auto);
+    assert (HL0 : LInv A X) by (destruct HL as [L1 L2 L3 L4 L5 L6]; constructor; assumption);
+    assert (HR0 : RInv X) by (apply (rinv_eq st); auto);
+    pose proof (sinv_absorb U P A X E H0 (einv_register U P _ s (si_enc _ _ _ _ _ H0)) (ext_register U _ s)) as H1;
+    destruct (linv_absorb U P A X E HL0 (einv_register U P _ s (si_enc _ _ _ _ _ H0)) (ext_register U _ s)) as [HL1 Etr1];
+    pose proof (rinv_absorb X E H0 HR0 (einv_register U P _ s (si_enc _ _ _ _ _ H0)) (ext_register U _ s) (fext_register U _ s)) as HR1;
+    pose proof (absorb_enc X E) as Ee1;
+    destruct (absorb X E) as [st1 c1]
+  end. cbn [fst] in H1, HL1, Etr1, HR1, Ee1. cbn [s_ps] in Etr1.
+  assert (Hr1 : Rooted (trail st1)) by (rewrite Etr1; exact Hr).
+  assert (Hrun : run_g (top_lv st1) (run_sat U P a_ge a_conflict fuel efuel st1 (Some s))).
+  { unfold run_sat. apply g_run_loop.
+    - apply (sinv_eq U P A st1); auto.
+    - destruct HL1 as [L1 L2 L3 L4 L5 L6]. constructor; assumption.
+    - apply (rinv_eq st1); auto.
+    - unfold top_lv. cbn [s_ps]. lia.
+    - left. cbn [s_ps]. split; [|exact Hr1]. rewrite top_lv_level. apply (rooted_top _ Hr1 (li_sorted _ _ HL1)).
+    - cbn [so_reg s_enc]. rewrite Ee1. apply (proj1 (registered_register U _ s)).
+    - intro E0. exfalso. pose proof (rooted_top _ Hr1 (li_sorted _ _ HL1)) as H1'. rewrite <- top_lv_level in H1'. lia. }
+  destruct (run_sat U P a_ge a_conflict fuel efuel st1 (Some s)) as [st2 acc|st2 core| |]; try exact I.
+  destruct Hrun as [HG2 _]. apply IH. exact HG2.
+Qed.
+
+(* whatever the soft requirements: the state a solution is read from satisfies RInv -- in particular every
+   solvable of the answer had been registered with the at-most-one tracker of its package *)
+Theorem solve_registered fuel efuel a0 order sol st :
+  solve U P a_ge a_conflict fuel efuel a0 order = (OSat sol, st) ->
+  RInv st /\ forall x, In x sol -> registered U (s_enc st) x.
+Proof.
+  unfold solve. intro H.
+  set (st0 := mkS (estate0 cache0) [mkCl KRoot [(VRoot, true)]] ps0 [] [] a0 0 [] order true []) in *.
+  assert (H0 : SInv U P A st0).
+  { constructor; simpl; [apply einv0 | reflexivity | apply winv0 | reflexivity]. }
+  assert (HL0 : LInv A st0).
+  { constructor; simpl; try exact I; try reflexivity.
+    - intros x [].
+    - intros x [].
+    - intros id c Hn j Hj. destruct id as [|[|id]]; simpl in Hn; try discriminate. inversion Hn. subst c. destruct Hj. }
+  assert (HR0 : RInv st0).
+  { constructor; simpl.
+    - intros c [].
+    - intros c [Hc|[]] l Hl. subst c. destruct Hl as [E|[]]. subst l. exact I.
+    - intros e [].
+    - intros x []. }
+  assert (Hrun : run_g 0 (run_sat U P a_ge a_conflict fuel efuel st0 None)).
+  { unfold run_sat. apply g_run_loop.
+    - apply (sinv_eq U P A st0); auto.
+    - destruct HL0 as [L1 L2 L3 L4 L5 L6]. constructor; assumption.
+    - apply (rinv_eq st0); auto.
+    - unfold top_lv. simpl. lia.
+    - right. split; [reflexivity|]. split; [reflexivity|]. right. split; reflexivity.
+    - exact I.
+    - intros _. reflexivity. }
+  destruct (run_sat U P a_ge a_conflict fuel efuel st0 None) as [st1 [|]|st1 core| |]; try discriminate H.
+  destruct Hrun as [HG1 _].
+  pose proof (g_soft_loop fuel efuel (pr_soft P) st1 HG1) as H2.
+  destruct (soft_loop U P a_ge a_conflict fuel efuel st1 (pr_soft P)) as [st2 acc|st2 core| |]; try discriminate H.
+  inversion H. subst. destruct H2 as [_ [_ [_ HR2]]]. split; [exact HR2|].
+  intros x Hx. unfold chosen in Hx. apply in_flat_map in Hx. destruct Hx as [e [He Hx]].
+  apply in_rev in He. pose proof (r_tr _ HR2 e He) as Hok.
+  destruct (t_lit e) as [[|y|n k] [|]]; simpl in Hx; try contradiction. destruct Hx as [Hx|[]]. subst y. exact Hok.
+Qed.
+
 End Registered.
